@@ -23,7 +23,51 @@ def classify(finding, case):
         return any(p and GENLIKE.match(p) for p in m)
     if finding["cls"] == "attribute-named-xmlns":
         return case.get("route") == "api" and has_xmlns_attr(tuple_tree(case["tree"]))
+    if finding["cls"] == "subtree-width-following-namespace":
+        return following_foreign_namespace(case)
     return False
+
+
+def node_namespaces(node):
+    out = set()
+    for n in bfs_tags(node):
+        out.add(n.namespace or "")
+        out.update(a.namespace or "" for a in n.attributes.values())
+    return out
+
+
+def following_foreign_namespace(case):
+    """a sub-tree serialized with a text width whose first following node in the document is an element that uses a
+    namespace the sub-tree does not: the line-fitting look-ahead (fetch_following / _required_space) leaves the
+    serialized sub-tree and asks the prefix table for that namespace"""
+    if not case.get("width") or not case.get("index"):
+        return False
+    with no_gc():
+        try:
+            root = make_root(case)
+            node = bfs_tags(root)[case["index"]]
+            with impl.altered_default_filters():
+                last = node
+                while isinstance(last, impl.TagNode) and len(last):
+                    last = last[-1]
+                nxt = last.fetch_following()
+            while nxt is not None and not isinstance(nxt, impl.TagNode):
+                return False if isinstance(nxt, impl.TextNode) and nxt.content.strip() else following_after(nxt, node)
+            if nxt is None:
+                return False
+            return not node_namespaces(nxt) <= node_namespaces(node)
+        except Exception:  # noqa: BLE001
+            return False
+
+
+def following_after(n, node):
+    """skip comments / PIs / white-space text after the sub-tree up to the next element"""
+    with impl.altered_default_filters():
+        while n is not None and not isinstance(n, impl.TagNode):
+            if isinstance(n, impl.TextNode) and n.content.strip():
+                return False
+            n = n.fetch_following()
+    return n is not None and not node_namespaces(n) <= node_namespaces(node)
 
 
 def has_xmlns_attr(t):
@@ -63,8 +107,9 @@ def formatted_outputs(root, m, rng):
     prefix table does not depend on the format options, so its correspondence is checked on the plain run only."""
     out = []
     tags = bfs_tags(root)
-    nodes = [("root", root)] + [("subtree", n) for n in rng.sample(tags[1:], min(2, len(tags) - 1))]
-    for which, node in nodes:
+    picks = rng.sample(range(1, len(tags)), min(2, len(tags) - 1))
+    nodes = [("root", 0, root)] + [("subtree", i, tags[i]) for i in picks]
+    for which, index, node in nodes:
         try:
             t = extract(node)
         except Exception:  # noqa: BLE001
@@ -76,7 +121,7 @@ def formatted_outputs(root, m, rng):
                 else:
                     text = node.serialize(format_options=impl.FormatOptions(**kw), namespaces=m)
             except Exception as e:  # noqa: BLE001   (formatting defects belong to C03/C18/C19; no serialization, no claim)
-                out.append((which + "/" + label, {"exc": type(e).__name__}))
+                out.append((which + "/" + label, {"exc": type(e).__name__, "index": index, "width": (kw or {}).get("width", 0)}))
                 continue
             out.append((which + "/" + label, {"ser": ("ok", text), "m": m, "t": t}))
     return out
@@ -280,6 +325,10 @@ def check_cases(ctx, cases):
         for label, fo in o.get("formatted", []):
             if "exc" in fo:
                 ctx.count(1, "formatted/raised-" + fo["exc"])
+                if fo["exc"] in ("KeyError", "AssertionError"):
+                    # the prefix table of this serialization was asked for a namespace it does not bind
+                    ctx.fail("%s serialization raised %s" % (label, fo["exc"]),
+                             dict(case, which=label, index=fo["index"], width=fo["width"]), classify)
                 continue
             ctx.count(1, "formatted/" + label)
             fbad = direct_clauses(fo) + lxml_clauses(fo)
@@ -289,6 +338,14 @@ def check_cases(ctx, cases):
 
 def replay_open(f):
     w = f["witness"]
+    if f["cls"] == "subtree-width-following-namespace":
+        with no_gc():
+            node = bfs_tags(Document(w["src"]).root)[w["index"]]
+            try:
+                node.serialize(format_options=impl.FormatOptions(indentation="  ", width=w["width"]))
+            except KeyError:
+                return True
+        return False
     if f["cls"] == "attribute-named-xmlns":
         o = observe({"route": "api", "tree": w["tree"], "mapping": w["mapping"]})
         return o["ser"][0] == "ok" and bool(direct_clauses(o))
